@@ -21,6 +21,8 @@ func init() {
 		Run: runC03,
 		Controls: []Control{
 			{Name: "dedup-key-without-identifier", File: "route/bgp_path_cache.go", Old: "\tif x, ok := bgpc.cache[*p]; ok {\n\t\tbgpc.cacheMu.Unlock()\n\t\treturn x\n\t}\n\n\tbgpc.cache[*p] = p\n", New: "\tk := *p\n\tk.BGPIdentifier = 0\n\tif x, ok := bgpc.cache[k]; ok {\n\t\tbgpc.cacheMu.Unlock()\n\t\treturn x\n\t}\n\n\tbgpc.cache[k] = p\n", Expect: "dedup-keeps-decision-keys"},
+			{Name: "as-sets-counted-once-per-path", File: "protocols/bgp/types/as_path.go", Old: "\t\tif p.Type == ASSet {\n\t\t\tret++\n\t\t\tcontinue\n", New: "\t\tif p.Type == ASSet {\n\t\t\tret |= 1 << 15\n\t\t\tcontinue\n", Expect: "as-set-counts-once-per-segment"},
+			{Name: "identity-ignores-the-peer-address", File: "route/bgp_path.go", Old: "\tif b.Source.Compare(c.Source) != 0 {\n\t\treturn false\n\t}\n\n\tif b.LocalPref != c.LocalPref || b.MED", New: "\tif b.LocalPref != c.LocalPref || b.MED", Expect: "identity-refines-the-decision"},
 			{Name: "replace-reranks-only-when-best-touched", File: "routingtable/locRIB/loc_rib.go", Old: "\tr.PathSelection()\n\ta.propagateChanges(oldRoute, r)\n}\n", New: "\tif oldRoute.BestPath().Equal(oldPath) {\n\t\tr.PathSelection()\n\t}\n\ta.propagateChanges(oldRoute, r)\n}\n", Expect: "loc-rib-reranks-after-every-change"},
 			{Name: "med-direction-flipped", File: "route/bgp_path.go", Old: "\tif c.BGPPathA.MED > b.BGPPathA.MED {\n\t\treturn 1\n\t}\n\n\tif c.BGPPathA.MED < b.BGPPathA.MED {\n\t\treturn -1\n\t}", New: "\tif c.BGPPathA.MED > b.BGPPathA.MED {\n\t\treturn -1\n\t}\n\n\tif c.BGPPathA.MED < b.BGPPathA.MED {\n\t\treturn 1\n\t}", Expect: "rfc-decision-step"},
 			{Name: "origin-and-med-swapped", File: "route/bgp_path.go", Old: "c.BGPPathA.Origin > b.BGPPathA.Origin {\n\t\treturn 1\n\t}\n\n\tif c.BGPPathA.Origin < b.BGPPathA.Origin {", New: "c.BGPPathA.LocalPref > b.BGPPathA.LocalPref {\n\t\treturn 1\n\t}\n\n\tif c.BGPPathA.LocalPref < b.BGPPathA.LocalPref {", Expect: "rfc-decision-step"},
@@ -37,6 +39,8 @@ type rfcStep struct {
 }
 
 func runC03(c *core.Ctx) {
+	asSetCountsOncePerSegment(c, "as-set-counts-once-per-segment")
+	identityRefinesTheDecision(c, "identity-refines-the-decision")
 	// the order Select defines is the order the Loc-RIB holds: every table mutation is re-ranked before anyone is told
 	selectionBeforePropagation(c, "loc-rib-reranks-after-every-change", 3)
 	// deduplication must not change a decision key
